@@ -29,6 +29,13 @@ pub fn equil_problem(rng: &mut StdRng) -> Problem {
         for i in 0..n { pd[i][j] *= s; pd[j][i] *= s; }
         p.q[j] *= s;
     }
+    // rows of almost, but not exactly, equal size: the scalings inside a non-scalar cone differ in the fourth digit only
+    if rng.gen::<f64>() < 0.15 {
+        for i in 0..m {
+            let nrm = a[i].iter().fold(0.0f64, |u, v| u.max(v.abs()));
+            if nrm > 0.0 { let f = (1.0 + 2e-4 * gen::unif(rng, -1.0, 1.0)) / nrm; for j in 0..n { a[i][j] *= f; } p.b[i] *= f; }
+        }
+    }
     // zero rows and columns, empty P, zero q
     if rng.gen::<f64>() < 0.4 && m > 0 { let i = rng.gen_range(0..m); for j in 0..n { a[i][j] = 0.0; } }
     if rng.gen::<f64>() < 0.3 && m > 1 { let i = rng.gen_range(0..m); for j in 0..n { a[i][j] = 0.0; } }
@@ -57,7 +64,23 @@ pub fn event(run: usize, p: &Problem) -> Value {
     let (P, A) = (p.P.to_clarabel(), p.A.to_clarabel());
     let cones = p.clarabel_cones();
     let res = catch_unwind(AssertUnwindSafe(|| {
-        let solver = DefaultSolver::new(&P, &p.q, &A, &p.b, &cones, st.clone());
+        // "+upd": the right-hand side (which no scaling depends on) reaches the solver through the partial update forms, and
+        // the cost vector is rewritten with its own values: the stored data must still be the scaled user data
+        let bound = clarabel::get_infinity();
+        let upd = p.tag.contains("+upd") && p.b.iter().all(|v| v.abs() < bound);
+        let solver = if upd {
+            let b0: Vec<f64> = p.b.iter().enumerate().map(|(i, v)| 0.5 * v + (i as f64 + 1.0)).collect();
+            let mut sv = DefaultSolver::new(&P, &p.q, &A, &b0, &cones, st.clone());
+            if sv.is_data_update_allowed() {
+                let ib: Vec<usize> = (0..p.b.len()).rev().collect();
+                let vb: Vec<f64> = ib.iter().map(|&i| p.b[i]).collect();
+                if run % 2 == 0 { sv.update_b(&(ib, vb)).expect("update_b"); } else { sv.update_b(&std::iter::zip(&ib, &vb)).expect("update_b"); }
+                let iq: Vec<usize> = (0..p.q.len()).rev().collect();
+                let vq: Vec<f64> = iq.iter().map(|&i| p.q[i]).collect();
+                if run % 4 < 2 { sv.update_q(&std::iter::zip(&iq, &vq)).expect("update_q"); } else { sv.update_q(&(iq, vq)).expect("update_q"); }
+                sv
+            } else { DefaultSolver::new(&P, &p.q, &A, &p.b, &cones, st.clone()) }
+        } else { DefaultSolver::new(&P, &p.q, &A, &p.b, &cones, st.clone()) };
         let d = &solver.data;
         let eq = &d.equilibration;
         let (m, n) = (p.m(), p.n());
@@ -116,7 +139,8 @@ pub fn record(seed: u64, count: usize) -> (Vec<Value>, Vec<Value>, Value) {
     let mut cases = vec![];
     let mut nonsc = 0;
     for run in 0..count {
-        let p = equil_problem(&mut rng);
+        let mut p = equil_problem(&mut rng);
+        if run % 3 == 1 { p.tag.push_str("+upd"); }
         let e = event(run, &p);
         if e["cones"].as_array().map(|c| c.iter().any(|x| x["scalar"] == false)).unwrap_or(false) && e["enable"] == true { nonsc += 1; }
         lines.push(e);
